@@ -243,6 +243,9 @@ func (vc *FuncVC) callFunction(st *State, fr *Frame, instr ssa.Instruction, call
 	// library
 	res, ok := vc.libCall(st, fr, instr, callee, args, site)
 	if !ok {
+		res, ok = vc.valueOnlyExternal(st, callee)
+	}
+	if !ok {
 		vc.unsupportedf("call to external function %s", callee.String())
 		panic(abortPath{"extern"})
 	}
@@ -1017,4 +1020,46 @@ func (vc *FuncVC) doGo(st *State, fr *Frame, instr ssa.Instruction, cc *ssa.Call
 	st.ghost["spawned"] = V{app("+", st.ghost["spawned"].T, "1"), SInt, nil}
 	st.event("go %s", target)
 	return nil
+}
+
+// valueOnlyExternal: an external function all of whose parameters are plain
+// values (numbers, strings, booleans) cannot reach framework state; its
+// results are modelled as unconstrained values of their types. Assumed not to
+// panic and not to block (recorded as an assumption).
+func (vc *FuncVC) valueOnlyExternal(st *State, callee *ssa.Function) ([]any, bool) {
+	sig := callee.Signature
+	plain := func(t types.Type) bool {
+		b, ok := t.Underlying().(*types.Basic)
+		return ok && b.Kind() != types.UnsafePointer
+	}
+	if sig.Recv() != nil && !plain(sig.Recv().Type()) {
+		return nil, false
+	}
+	for i := 0; i < sig.Params().Len(); i++ {
+		if !plain(sig.Params().At(i).Type()) {
+			return nil, false
+		}
+	}
+	name := callee.String()
+	if name == "time.Sleep" || strings.HasPrefix(name, "os.") || strings.HasPrefix(name, "runtime.") || strings.HasPrefix(name, "syscall.") {
+		return nil, false
+	}
+	var res []any
+	for i := 0; i < sig.Results().Len(); i++ {
+		rt := sig.Results().At(i).Type()
+		so := vc.w.sortOf(rt)
+		if so == "Opaque" || so == "Tuple" {
+			return nil, false
+		}
+		v := st.freshV("ext_"+callee.Name(), rt)
+		vc.assumeTypeWF(st, v, rt)
+		if _, isPtr := rt.Underlying().(*types.Pointer); isPtr {
+			// a pointer handed out by the library is a fresh object for the framework
+			a := st.alloc("extobj")
+			st.assume(or(eq(v.T, "0"), eq(v.T, a.T)))
+		}
+		res = append(res, v)
+	}
+	vc.trusted["external function "+name+" takes only plain values: modelled as returning unconstrained results, assumed not to panic or block"] = true
+	return res, true
 }
